@@ -28,10 +28,12 @@ def problems():
         # limit states with a plateau at zero / integer values: level thresholds that are exactly 0 and tied g values
         'clipped': (2, lambda X: max(2.0 - (X[0] + X[1]) / math.sqrt(2), 0.0), [stats.norm(), stats.norm()], np.eye(2), None),
         'integer': (2, lambda X: float(math.floor(2.5 - X[0] - X[1])), [stats.norm(), stats.norm()], np.eye(2), None),
+        # correlated non-normal marginals (the latent correlation depends on the quadrature parameters)
+        'correlated': (2, lambda X: X[0] + X[1] - 0.6, [stats.lognorm(0.5), stats.expon()], np.array([[1.0, 0.6], [0.6, 1.0]]), None),
     }
 
 
-def traced_run(name, N, p0, maxSub, seed):
+def traced_run(name, N, p0, maxSub, seed, quad=None):
     """run subsetSimulation with the chain evolution observed from outside; returns outputs + trace"""
     core.import_impl()
     import numpy as np
@@ -61,17 +63,27 @@ def traced_run(name, N, p0, maxSub, seed):
             finally:
                 log['inside'] = False
     with mock.patch.object(mhmod, 'AuModifiedMHSampler', Spy):
-        pf, lsf, U, X = rrm.subsetSimulation(dim, gw, dists, corr, N, maxSub, probLevel=p0, randomSeed=seed)
+        kwq = {} if quad is None else {'quadDeg': quad[0], 'quadRange': quad[1]}
+        pf, lsf, U, X = rrm.subsetSimulation(dim, gw, dists, corr, N, maxSub, probLevel=p0, randomSeed=seed, **kwq)
     return dict(pf=float(pf), lsf=np.array(lsf), U=np.array(U), X=np.array(X), g0=log['g_main'][:N], chains=log['chains'],
                 dim=dim, g=g, dists=dists, corr=corr, beta=beta)
 
 
-def check_run(res, name, N, p0, maxSub, seed, reqs, meta):
+def check_run(res, name, N, p0, maxSub, seed, reqs, meta, quad=None, config=None):
     core.import_impl()
     import numpy as np
     from ffpack import rpm
-    case = {'problem': name, 'numSamples': N, 'probLevel': p0, 'maxSubsets': maxSub, 'seed': seed}
-    r = traced_run(name, N, p0, maxSub, seed)
+    case = {'problem': name, 'numSamples': N, 'probLevel': p0, 'maxSubsets': maxSub, 'seed': seed, 'quad': quad, 'globalConfig': config}
+    if config:
+        from ffpack.config import globalConfig
+        old = (globalConfig.atol, globalConfig.rtol)
+        globalConfig.atol, globalConfig.rtol = config
+        try:
+            r = traced_run(name, N, p0, maxSub, seed, quad)
+        finally:
+            globalConfig.atol, globalConfig.rtol = old
+    else:
+        r = traced_run(name, N, p0, maxSub, seed, quad)
     nc = int(p0 * N)
     res.evaluations += 1
     res.nontrivial.add(json.dumps(case))
@@ -91,7 +103,7 @@ def check_run(res, name, N, p0, maxSub, seed, reqs, meta):
             fail(res, 'samples of level k+1 above the level-k threshold', case, {'level': k + 1, 'above_threshold': bad, 'of': N},
                  sig=f'C13:nestedness:{name}:{N}:{p0}:{seed}')
     # (c) X = T(U), g evaluated on X
-    nat = rpm.NatafTransformation(r['dists'], r['corr'])
+    nat = rpm.NatafTransformation(r['dists'], r['corr'], **({} if quad is None else {'quadDeg': quad[0], 'quadRange': quad[1]}))
     for k in range(m):
         for i in (0, N // 2, N - 1):
             x, _ = nat.getX(r['U'][k][i])
@@ -118,16 +130,22 @@ def check_run(res, name, N, p0, maxSub, seed, reqs, meta):
 def explore(res, rng, n):
     reqs, meta = [], []
     for i in range(n):
-        name = rng.choice(['linear2', 'linear2', 'linear3', 'lognormal', 'quadratic', 'clipped', 'integer'])
+        name = rng.choice(['linear2', 'linear2', 'linear3', 'lognormal', 'quadratic', 'clipped', 'integer', 'correlated'])
         if i < 2:
             name = ['clipped', 'integer'][i]
+        if i == 5:
+            name = 'correlated'
         # incl. p0 * N that is not an integer, exactly (7.5, 3.3) or only in binary64 (0.07 * 100 = 7.000000000000001, 0.29 * 100 = 28.999999999999996)
         N, p0 = rng.choice([(20, 0.5), (40, 0.25), (50, 0.1), (30, 0.3), (100, 0.3), (64, 0.125), (10, 0.3), (60, 0.2),
                             (100, 0.07), (100, 0.29), (50, 0.15), (25, 0.3), (33, 0.1)])
         if i in (2, 3):
             N, p0 = [(100, 0.07), (50, 0.15)][i - 2]
         maxSub = rng.choice([3, 6, 10])
-        r = check_run(res, name, N, p0, maxSub, rng.randrange(10 ** 6), reqs, meta)
+        quad = None
+        if name == 'correlated' or rng.random() < 0.2:
+            quad = rng.choice([(99, 8), (60, 3), (40, 5)])          # non-default quadrature degree / range
+        config = (1, 1) if i % 5 == 4 else None                      # globalConfig.atol / rtol changed before the run
+        r = check_run(res, name, N, p0, maxSub, rng.randrange(10 ** 6), reqs, meta, quad, config)
         if i < 2:
             res.samples.append(meta[-1][0])
     for (case, levels, nc, rank), a in zip(meta, core.driver_batch(reqs)):
@@ -160,7 +178,7 @@ def statistical(res, rng):
 
 def run(tier, seed):
     res = core.Result(PID, tier, seed)
-    res.rule = ('six limit states (linear-Gaussian 2D/3D, lognormal product, quadratic, clipped at zero, integer-valued) x sample sizes / level probabilities incl. '
+    res.rule = ('seven limit states (linear-Gaussian 2D/3D, lognormal product, quadratic, clipped at zero, integer-valued, correlated lognormal-exponential with non-default quadrature), some runs after changing globalConfig.atol/rtol, x sample sizes / level probabilities incl. '
                 'p0*N*floor(1/p0) < N and non-integer p0*N x seeds; distinct by (problem, N, p0, maxSubsets, seed)')
     core.prove(res, PID, MODULES, clean=(tier == 'thorough'))
     n = 12 if tier == 'quick' else 300
